@@ -1,6 +1,7 @@
 """C11, IPv6 listener (implementation-side oracle): PASV on an IPv6 server is answered 503 after the
 listener was already opened from the pool; EPSV works.  Whatever the sequence, at every quiescent point
 pool (+) ports held by live sessions = configured ports, and the full pool is back when all sessions are gone."""
+import asyncio
 import collections
 import socket
 
@@ -115,9 +116,59 @@ def port_forms(ctx, res):
                 res.oracle_failures.append({"input": inp, "what": "Server(data_ports=<%s of %r>) starts with the pool %r" % (form, ports, got), "signature": "C11:pool-not-the-configured-ports"})
 
 
+async def _zero_case(loop, ports, ends):
+    """port 0 in `data_ports` is a slot like any other (the system picks the number when the listener starts): taken at
+    PASV/EPSV, back when the session is over"""
+    import world as W
+
+    wd = W.World(loop, [W.UserSpec("bob", None)], server_kwargs={"data_ports": list(ports)})
+    await wd.start()
+    seen = []
+    try:
+        for end in ends:
+            c = await wd.raw_client()
+            await W.run_line(wd, c, b"USER bob")
+            codes, _, _, _ = await W.run_line(wd, c, b"EPSV" if end != "pasv-quit" else b"PASV")
+            if end == "vanish":
+                c.vanish()
+            elif end == "close":
+                c.close()
+            else:
+                await W.run_line(wd, c, b"QUIT")
+            await loop.settle()
+            await asyncio.sleep(1)
+            await loop.settle()
+            seen.append((end, codes, sorted(p for _, p in wd.server.available_data_ports._queue)))
+    finally:
+        try:
+            await wd.stop()
+        except Exception:
+            wd.finish()
+    return seen
+
+
+def zero_ports(ctx, res):
+    for ports in ([0], [0, 0], [0, 5001]):
+        res.cases += 1
+        res.count("data_ports_with_port_zero")
+        res.distinct.add(("port-zero", tuple(ports)))
+        inp = {"kind": "port-zero", "ports": ports}
+        try:
+            seen = simnet.run(_zero_case, ports, ["quit", "pasv-quit", "vanish", "close", "quit"], wall_limit=60)
+        except BaseException as e:  # noqa
+            res.oracle_failures.append({"input": inp, "what": "Server(data_ports=%r): the sessions did not run (%s: %s)" % (ports, type(e).__name__, e), "signature": "C11:port-zero"})
+            continue
+        for end, codes, pool in seen:
+            if codes not in ([229], [227]) or pool != sorted(ports):
+                res.oracle_failures.append({"input": inp, "what": "Server(data_ports=%r): a session asked for a passive listener (%r) and ended by %s: the pool is %r afterwards (configured %r)" % (ports, codes, end, pool, sorted(ports)),
+                                            "signature": "C11:port-zero:port-lost"})
+                break
+
+
 def run(ctx):
     res = Result()
     port_forms(ctx, res)
+    zero_ports(ctx, res)
     for ports, ops in gen(ctx):
         res.cases += 1
         res.count("ipv6_histories")
@@ -133,6 +184,12 @@ def run(ctx):
 
 
 def replay(inp):
+    if inp.get("kind") == "port-zero":
+        r = Result()
+        zero_ports(None, r)
+        for f in r.oracle_failures:
+            print(f["what"])
+        return bool(r.oracle_failures)
     if inp.get("kind") == "data-ports-form":
         got = _pool_of(inp["form"], inp["ports"])
         print("pool:", got)
